@@ -305,6 +305,10 @@ def lin (α : Rat) (f : Fld) (β : Rat) (g : Fld) : Fld :=
 def compFld (f : Fld) (c : Nat) : Fld :=
   { f with nvdim := 1, data := ⟨f.data.shape, fun i => [cget f.data i c]⟩, vdims := none, vmap := [] }
 
+/-- `abs(field)`: `np.abs` of every component of every cell, everything else kept -/
+def absF (f : Fld) : Fld :=
+  { f with data := ⟨f.data.shape, fun i => tab f.nvdim fun c => absR (cget f.data i c)⟩ }
+
 /-- the same field on the mesh moved by `t` (subregions move along) -/
 def shiftRegion (t : List Rat) (r : Region) : Region :=
   { r with pmin := tab r.pmin.length (fun a => r.pmin.getD a 0 + t.getD a 0),
@@ -357,6 +361,42 @@ def ishape (f : Fld) (dir : Dir) (cum : Bool) : List Nat :=
     | .error _ => []
   | _ => []
 
+/-- the value at index `i`, component `c`, of `mean(direction)` as sum / count (spec layer) -/
+def mval (f : Fld) (dir : Dir) (i : List Nat) (c : Nat) : Rat :=
+  match dir with
+  | .none => (nestSum f.data.shape fun t => cget f.data t c) / (natProd f.data.shape : Rat)
+  | .name d =>
+    match f.mesh.region.dim2index d with
+    | .ok ax =>
+      (sumTo (f.data.shape.getD ax 0) fun j => cget f.data (insertAt i ax j) c)
+        / ((f.data.shape.getD ax 0 : Nat) : Rat)
+    | .error _ => 0
+  | .names ds =>
+    if sameMultiset ds f.mesh.region.dims then
+      (nestSum f.data.shape fun t => cget f.data t c) / (natProd f.data.shape : Rat)
+    else
+      match dimIndices f.mesh.region ds with
+      | .ok axes =>
+        maskSum f.data.shape (keepMask f.data.shape.length axes) (fun t => cget f.data t c) i
+          / (dropProd (keepMask f.data.shape.length axes) f.data.shape : Rat)
+      | .error _ => 0
+  | .other => 0
+
+/-- the shape of the result of `mean(direction)` (spec layer) -/
+def mshape (f : Fld) (dir : Dir) : List Nat :=
+  match dir with
+  | .name d =>
+    match f.mesh.region.dim2index d with
+    | .ok ax => removeAt f.data.shape ax
+    | .error _ => []
+  | .names ds =>
+    if sameMultiset ds f.mesh.region.dims then []
+    else
+      match dimIndices f.mesh.region ds with
+      | .ok axes => filterMask (keepMask f.data.shape.length axes) f.data.shape
+      | .error _ => []
+  | _ => []
+
 /-- product of the edge lengths of the named directions (the integrated extent) -/
 def extent (r : Region) : List String → Rat
   | [] => 1
@@ -364,5 +404,13 @@ def extent (r : Region) : List String → Rat
     (match r.dim2index d with
      | .ok a => r.edge a
      | .error _ => 1) * extent r ds
+
+/-- product of the cell lengths of the named directions -/
+def cellExtent (m : Mesh) : List String → Rat
+  | [] => 1
+  | d :: ds =>
+    (match m.region.dim2index d with
+     | .ok a => m.cellAt a
+     | .error _ => 1) * cellExtent m ds
 
 end DFV.C06
